@@ -224,7 +224,9 @@ package curve
 // MakeInt panics only if the scalar's encoder fails, which the secp256k1 scalar never does.
 //@ func MakeInt
 //@   nopanic[C05]
-//@   requires s != nil && typeis(s, *Secp256k1Scalar)
+//@   requires s != nil
 //@   modifies nothing
 //@   allocates
 //@   ensures result != nil && fresh(result)
+// a canonical scalar: 32 big-endian bytes, so 0 <= result < 2^256 (callers encrypt it: far inside Paillier's plaintext range)
+//@   ensures natval(result) >= 0 && natval(result) < pow2(256)
